@@ -85,7 +85,24 @@ func (s *state) check(h *rt.H, op string, ns, ident string, max int, f func() st
 			s.seen[ns] = m
 		}
 		if prev, ok := m[name]; ok && prev != ident {
-			h.OracleFail("collision", "two distinct identities got the same name", map[string]any{"op": op, "name": name, "identity_a": prev, "identity_b": ident, "namespace": ns})
+			sig := "collision"
+			// the verbatim identity "_"+<whole 43-char hash> against a shortened name that is SHORTER than the
+			// limit (room for the hash > 43): the `_` marker argument does not cover this (see Props/C37.lean)
+			for _, id := range []string{prev, ident} {
+				t := id[strings.LastIndex(id, "/")+1:]
+				if !strings.HasPrefix(t, "x") {
+					continue
+				}
+				b, err := hex.DecodeString(t[1:])
+				if err != nil {
+					continue
+				}
+				suf := string(b)
+				if len(suf) == 44 && suf[0] == '_' && strings.HasSuffix(name, suf) && len(name) < max {
+					sig = "collision-marker-fullhash"
+				}
+			}
+			h.OracleFail(sig, "two distinct identities got the same name", map[string]any{"op": op, "name": name, "identity_a": prev, "identity_b": ident, "namespace": ns})
 		}
 		m[name] = ident
 	}
@@ -268,10 +285,12 @@ func genCase(h *rt.H) []string {
 			base := suffixAround(h, len(p), m)
 			sufs := []string{base, base + "x", "_" + base, "", "_"}
 			if len(base) > 2 {
-				sufs = append(sufs, base[:len(base)-1]+"#", base[1:])
+				sufs = append(sufs, base[:len(base)-1]+"#", base[1:], "#"+base[1:])
 			}
 			// adversarial: the suffix that EQUALS the shortened form of `base`
-			if c := m - 1 - len(p); c > 0 && c <= 43 {
+			if c := m - 1 - len(p); c > 43 && len(p)+len(base) > m {
+				sufs = append(sufs, "_"+h64(base), h64(base), "_"+h64(base)[:42])
+			} else if c > 0 && c <= 43 {
 				sufs = append(sufs, "_"+h64(base)[:c])
 				if len(base) > 0 {
 					sufs = append(sufs, h64(base)[:c], "_"+h64(base)[:c-1])
@@ -308,6 +327,9 @@ func genCase(h *rt.H) []string {
 			dir := rt.Pick(h, []string{"in", "out"})
 			name := rt.Pick(h, []string{"kns.default", "ksa.default.default", "_", "_prof", randStr(h, 17), randStr(h, 18), randStr(h, 19), randStr(h, 20), "_" + randStr(h, 18), "_" + randStr(h, 17), randStr(h, 60), randStr(h, 250)})
 			add(fmt.Sprintf("prof %s %s %s", dir, xs(name), nf), name)
+			if len(name) > 200 && h.Intn(2) == 0 { // the identity that spells the shortened form of `name`
+				add(fmt.Sprintf("prof %s %s %s", dir, xs("_"+h64(name)), nf), "_"+h64(name))
+			}
 		case 6, 7: // endpoints
 			kind := rt.Pick(h, []string{"tw", "fw", "sm", "th", "fh", "thfw", "fhfw", "arp"})
 			m := rt.Pick(h, []int{ipt, ipt, nft})
@@ -316,6 +338,16 @@ func genCase(h *rt.H) []string {
 				iface = iface[:300]
 			}
 			add(fmt.Sprintf("ep %s %s %d", kind, xs(iface), m), iface)
+			if len(iface) > 200 && h.Intn(2) == 0 {
+				add(fmt.Sprintf("ep %s %s %d", kind, xs("_"+h64(iface)), m), "_"+h64(iface))
+			}
+			// if one endpoint prefix extends another, the two kinds can spell the same chain name
+			kind2 := rt.Pick(h, []string{"tw", "fw", "sm", "th", "fh", "thfw", "fhfw", "arp"})
+			if pa, pb := epPfx[kind], epPfx[kind2]; kind != kind2 && strings.HasPrefix(pb, pa) {
+				x := randStr(h, 5)
+				add(fmt.Sprintf("ep %s %s %d", kind, xs(pb[len(pa):]+x), m), pb[len(pa):]+x)
+				add(fmt.Sprintf("ep %s %s %d", kind2, xs(x), m), x)
+			}
 		case 8: // policy groups
 			dir := rt.Pick(h, []string{"in", "out"})
 			k := h.Intn(40)
